@@ -170,6 +170,12 @@ func randomOrder(r *core.Rand, tree []blk, pDup, pHdr, orderly int) []op {
 			ops = append(ops, op{'h', ids[r.Intn(len(ids))]})
 		}
 	}
+	// rare shape: the genesis block / header itself is re-delivered
+	if r.Chance(1, 8) {
+		at := r.Intn(len(ops) + 1)
+		g := op{"bhnk"[r.Intn(4)], 0}
+		ops = append(ops[:at], append([]op{g}, ops[at:]...)...)
+	}
 	// argument variants that must not matter: BFNoPoWCheck on a block with valid
 	// proof of work, skipCheckpoint on a chain without checkpoints
 	for i := range ops {
@@ -449,6 +455,72 @@ func genHardening(g *core.Gen) {
 			}
 			tree = append(tree, blk{n + 1, n - 3, 1, true, true, true, true, 0}) // a short fork near the tip
 			g.Case("long-chain", true, mkLine(tree, blockOps(idsOf(tree))))
+		}
+	}
+	// ---- every kind of invalid block at the first / a middle / the last position of a multi-block
+	// attach list (and of a chain drained from the orphan pool), branches differing in length, work
+	// (paced variant) and timestamps
+	for kind := 0; kind < 4; kind++ {
+		for pos := 0; pos < 3; pos++ {
+			for variant := 0; variant < g.N(2, 6); variant++ {
+				mainLen := 2 + r.Intn(3)
+				sideLen := mainLen + 1 + r.Intn(2)
+				var tree []blk
+				id := 0
+				par := 0
+				for k := 0; k < mainLen; k++ {
+					id++
+					tree = append(tree, blk{id, par, 1, true, true, true, true, 0})
+					par = id
+				}
+				forkAt := r.Intn(mainLen) // 0 = genesis
+				par = forkAt
+				badAt := []int{0, sideLen / 2, sideLen - 1}[pos]
+				var side []int
+				for k := 0; k < sideLen; k++ {
+					id++
+					x := blk{id, par, 1, true, true, true, true, 0}
+					if k == badAt {
+						switch kind {
+						case 0:
+							x.sane = false
+						case 1:
+							x.hdrOk = false
+						case 2:
+							x.ctxOk = false
+						default:
+							x.connOk = false
+						}
+					}
+					tree = append(tree, x)
+					side = append(side, id)
+					par = id
+				}
+				if variant%2 == 1 {
+					tree = pacedTree(r, tree)
+				}
+				var ops []op
+				for k := 1; k <= mainLen; k++ {
+					ops = append(ops, op{'b', k})
+				}
+				switch variant % 3 {
+				case 0: // side chain in order: reorg attempted at its heavier blocks
+					ops = append(ops, blockOps(side)...)
+				case 1: // side chain children first: the whole chain comes out of the orphan pool at once
+					for k := len(side) - 1; k >= 0; k-- {
+						ops = append(ops, op{'b', side[k]})
+					}
+				default: // headers first, then data in random order
+					for _, x := range side {
+						ops = append(ops, op{'h', x})
+					}
+					sh := append([]int(nil), side...)
+					shuffle(r, sh)
+					ops = append(ops, blockOps(sh)...)
+				}
+				ops = append(ops, blockOps(side)...) // re-deliver everything once
+				g.Case("attach-positions", true, mkLine(tree, ops))
+			}
 		}
 	}
 	// ---- 8 independent chains at once (no hidden shared state between instances)
